@@ -70,6 +70,15 @@ Inductive ccase :=
 | KSpec (d : domain) (fixed : list (nat * Q)) (pts : list row)
 (* CategoricalDomain.generate_quasi_random_points_in_domain(n) on a constrained domain: one-hot sampler + decode *)
 | KQuasi (d : domain) (c : row) (n : Z) (so : samp_orc) (dec : dorc) (out : option (list point))
+(* the two CONSTRAINED branches of one_hot_domain.generate_quasi_random_points_in_domain(n), seen at the call they make into
+   aux/samplers.py (hit-and-run when force_hitandrun_sampling is set, rejection sampling with hit-and-run padding otherwise): the
+   half-space rows, the start point and the box HANDED to the sampler, what the sampler returned (raw), the uniform values drawn for
+   the unconstrained columns (forced branch) and what the entry point returns.  The samplers themselves are C08's models
+   (Model/Samplers.v: rejection_with_padding / hitandrun on the half-spaces they are handed); the glue of oh_sample is that they are
+   handed R.halfspaces (oh_dom d) - constraint rows AND both bound rows of every coordinate - and the stored centre, and that only the
+   columns of uncon_idx are overwritten *)
+| KSampleCall (d : domain) (c : row) (forced : bool) (handed : list R.halfspace) (x0 : row) (box : list (Q * Q))
+              (raw : list row) (vals : list row) (out : list row)
 (* SPENextPoints.draw_samples: the test points proposed in each while-iteration (near the used lower points, or the uniform
    sampler for a lower point outside the domain), cut to batch_size *)
 | KSpeBatches (d : domain) (c : row) (bsz : nat) (lower : list row) (iters : list (list nearorc)) (tests : list (list row)).
@@ -104,6 +113,14 @@ Definition ccheck (k : ccase) : bool :=
                   end
       | None => match out with None => true | Some _ => false end
       end
+  | KSampleCall d c forced handed x0 box raw vals out =>
+      let D := oh_dom d in
+      forall2b (fun a b => row_eqb (fst a) (fst b) && Qeq_bool (snd a) (snd b)) (R.halfspaces D) handed && row_eqb c x0 &&
+      (if forced
+       then bounds_eqb (map (fun j => nth j (one_hot_box d) (0, 0)) (uncon_idx d)) box &&
+            rows_eqb (R.map2 (fun p v => R.fix_point (combine (uncon_idx d) v) p) raw vals) out
+       else bounds_eqb (one_hot_box d) box && rows_eqb raw out) &&
+      forallb (spec_pt tol_cons d []) out
   | KSpeBatches d c bsz lower iters tests =>
       match spe_batches_n d c bsz lower (map (fun os => (os, repeat 0 bsz, repeat 0 bsz)) iters) with
       | Some bs => forall2b rows_eqb (map (map (fun t : row * Q * Q => fst (fst t))) bs) tests &&
